@@ -44,7 +44,7 @@ CODES = {1: "Gallina model of the SBML codec / bound parameters / written docume
          8: "second trip failed"}
 STEPS = "steps 1-3 = id codec / bound parameters, 4 = validator, 5 = write_doc vs the written document, 6 = read_doc of the " \
         "written document vs the model read, 7 = round trip of the model vs norm (theorem instance / implementation), " \
-        "8 = duplicate SId accepted by the validator, 100+t / 200+t = first / second trip via "
+        "8 = duplicate SId accepted by the validator, 9 = export / import without id replacement (f_replace {} / None), 100+t / 200+t = first / second trip via "
 NS = {"s": "http://www.sbml.org/sbml/level3/version1/core", "f": "http://www.sbml.org/sbml/level3/version1/fbc/version2",
       "g": "http://www.sbml.org/sbml/level3/version1/groups/version1"}
 FBC = "{%s}" % NS["f"]
@@ -385,7 +385,38 @@ def run_impl(spec, seed):
             except Exception as e:
                 r2 = {"err": type(e).__name__, "msg": str(e)[:200]}
             out["trips"].append((tag, {"ok": o1}, r2))
+        if written is not None:
+            out["raw_trip"] = raw_trip(cio, written)
     return out
+
+
+def raw_trip(cio, written):
+    """The documented configuration WITHOUT identifier replacement (f_replace = {} or None, on export and on import):
+    the document is read raw (identifiers as in the document: R_..., M_..., G_...), exported raw and imported raw again;
+    identifiers and rules must come back as they are.  (Monitor on the implementation; the Gallina codec is the default
+    configuration.)"""
+    fails = []
+
+    def idview(m):
+        return {"rxns": [(r.id, r.gene_reaction_rule) for r in m.reactions], "mets": [x.id for x in m.metabolites],
+                "genes": sorted(g.id for g in m.genes), "groups": [(g.id, sorted(x.id for x in g.members)) for g in m.groups]}
+    try:
+        raw = cio.read_sbml_model(written, f_replace={})
+    except Exception as e:  # noqa
+        return ["reading without replacement raised %s" % type(e).__name__]
+    want = idview(raw)
+    for fw, fr in ((None, None), ({}, None), (None, {})):
+        p3 = os.path.join(TMP, "r%d.xml" % os.getpid())
+        try:
+            cio.write_sbml_model(raw, p3, f_replace=fw)
+            got = idview(cio.read_sbml_model(p3, f_replace=fr))
+        except Exception as e:  # noqa
+            fails.append("export f_replace=%r / import f_replace=%r raised %s: %s" % (fw, fr, type(e).__name__, str(e)[:100]))
+            continue
+        if got != want:
+            fails.append("export f_replace=%r / import f_replace=%r: identifiers or rules differ: %s" % (
+                fw, fr, [k for k in want if want[k] != got[k]]))
+    return fails
 
 
 def _run_one(a):
@@ -469,6 +500,8 @@ def evaluate(specs, seeds):
     for i, o in enumerate(outs):
         if o.get("ids_in_document_match") is False:
             codes[i].append((1, 1))
+        if o.get("raw_trip"):
+            codes[i].append((9, 3))
     return codes, faults, outs
 
 
@@ -510,6 +543,8 @@ def lost_digits(o0, o1):
 
 def cause_of(spec, out, step, code):
     """A label for the failure, computed from the implementation's observations (used in signatures)."""
+    if step == 9:
+        return "without_id_replacement"
     if step < 100:
         if code in (20, 21):
             return "id_with_escape_pattern"
